@@ -225,6 +225,9 @@ func runPwScenario(sc pwScenario) pwResult {
 			case <-stop:
 				return
 			}
+			if sc.Consumer == "atclose" || sc.Consumer == "longafterclose" {
+				_ = pw.Size() // a consumer may look at the total before it starts receiving (the writer has finished writing)
+			}
 			ch := getCh()
 			for i := 0; ; i++ {
 				select {
@@ -627,6 +630,7 @@ func runProgress(cfg Cfg) {
 		scenarios = append(scenarios, pwScenario{Calls: calls, Close: true, Consumer: Pick(r, []string{"fast", "atclose", "slow"}), Pace: "none", Seed: r.U64()})
 	}
 	pwNested(s)
+	pwCopyInto(s, rng)
 
 	for idx, sc := range scenarios {
 		res := runPwScenario(sc)
@@ -796,4 +800,89 @@ func pwNested(s *Stream) {
 	}
 	s.Evaluations++
 	s.Nontrivial("nested")
+}
+
+// pwSink is a destination with limited room that also offers io.ReaderFrom (as *os.File or *net.TCPConn do):
+// it consumes what it is given but only reports what fitted.
+type pwSink struct {
+	room     int
+	reported int
+	failErr  error
+}
+
+func (k *pwSink) take(n int) (int, error) {
+	if n <= k.room {
+		k.room -= n
+		k.reported += n
+		return n, nil
+	}
+	m := k.room
+	k.room = 0
+	k.reported += m
+	return m, k.failErr
+}
+
+func (k *pwSink) Write(p []byte) (int, error) { return k.take(len(p)) }
+
+func (k *pwSink) ReadFrom(r io.Reader) (int64, error) {
+	var total int64
+	buf := make([]byte, 8192)
+	for {
+		n, err := r.Read(buf)
+		if n > 0 {
+			m, werr := k.take(n)
+			total += int64(m)
+			if werr != nil {
+				return total, werr
+			}
+			if m < n {
+				return total, io.ErrShortWrite
+			}
+		}
+		if err == io.EOF {
+			return total, nil
+		}
+		if err != nil {
+			return total, err
+		}
+	}
+}
+
+type pwPlainReader struct{ r io.Reader } // hides WriteTo, so that io.Copy looks at the destination
+
+func (p pwPlainReader) Read(b []byte) (int, error) { return p.r.Read(b) }
+
+// pwCopyInto: io.Copy(progressWriter, source) into a destination that runs out of room: whichever path
+// io.Copy takes, Size() is what the wrapped writer reported.
+func pwCopyInto(s *Stream, rng *Rng) {
+	for i := 0; i < 12; i++ {
+		size := 1 + rng.Intn(200000)
+		room := rng.Intn(size + size/4 + 1)
+		sink := &pwSink{room: room, failErr: Pick(rng, []error{io.ErrShortWrite, pwErrScripted, nil})}
+		pw := ioutil.NewProgressWriter(sink)
+		done := make(chan struct{})
+		var last int
+		go func() {
+			defer close(done)
+			for v := range pw.Status() {
+				last = v
+			}
+		}()
+		_, cerr := io.Copy(pw, pwPlainReader{bytes.NewReader(make([]byte, size))})
+		sc := map[string]any{"scenario": "io.Copy(ProgressWriter(dst), src)", "source_bytes": size, "room_in_destination": room, "copy_error": fmt.Sprint(cerr)}
+		if pw.Size() != sink.reported {
+			s.Violate("size-not-sum", fmt.Sprintf("after io.Copy of %d bytes into a destination with room for %d: Size() = %d, the wrapped writer reported %d", size, room, pw.Size(), sink.reported), sc)
+		}
+		pw.Close()
+		select {
+		case <-done:
+			if last != sink.reported {
+				s.Violate("close-total", fmt.Sprintf("io.Copy scenario: last value received %d, the wrapped writer reported %d", last, sink.reported), sc)
+			}
+		case <-time.After(5 * time.Second):
+			s.Violate("not-closed", "io.Copy scenario: channel not closed 5 s after Close", sc)
+		}
+		s.Evaluations++
+		s.Nontrivial(fmt.Sprintf("iocopy/%d", i))
+	}
 }
